@@ -223,11 +223,18 @@ where
         } else {
             // Start a multi-block read
             self.card_command(CMD18, start_idx)?;
+            let mut result = Ok(());
             for block in blocks.iter_mut() {
-                self.read_data(&mut block.contents)?;
+                result = self.read_data(&mut block.contents);
+                if result.is_err() {
+                    break;
+                }
             }
-            // Stop the read
-            self.card_command(CMD12, 0)?;
+            // Stop the read - also when a block failed, because the card is
+            // still in the data state and would carry on sending blocks
+            let stop_result = self.card_command(CMD12, 0);
+            result?;
+            stop_result?;
         }
         Ok(())
     }
